@@ -161,6 +161,23 @@ fn ids_of(v: &Value) -> Vec<String> {
     v.as_array().map(|a| a.iter().filter_map(|e| e.get("_id").and_then(|i| i.as_str()).map(|s| s.to_string())).collect()).unwrap_or_default()
 }
 
+fn all_ids_of(v: &Value, out: &mut Vec<String>) {
+    match v {
+        Value::Object(o) => {
+            if let Some(id) = o.get("_id").and_then(|i| i.as_str()) {
+                out.push(id.to_string());
+            }
+            for (k, val) in o {
+                if k.ends_with('\u{266D}') {
+                    all_ids_of(val, out);
+                }
+            }
+        }
+        Value::Array(a) => a.iter().for_each(|e| all_ids_of(e, out)),
+        _ => {}
+    }
+}
+
 pub struct MergeProbe;
 
 impl Probe for MergeProbe {
@@ -244,14 +261,57 @@ impl Probe for MergeProbe {
                 cx.outcome(sha_hex(doc.to_string().as_bytes()));
                 cx.count("states_with_array_conflict");
             }
+            // whole document (nested flattened arrays and fields included): no tracked object twice, and no
+            // flattened array replaced by null although its owner is shown
+            {
+                let mut ids = vec![];
+                fn walk(v: &Value, ids: &mut Vec<String>, nulls: &mut Vec<String>) {
+                    match v {
+                        Value::Object(o) => {
+                            if let Some(id) = o.get("_id").and_then(|i| i.as_str()) {
+                                ids.push(id.to_string());
+                            }
+                            for (k, val) in o {
+                                if k.ends_with('\u{266D}') {
+                                    if val.is_null() && k.starts_with("sub") {
+                                        nulls.push(k.clone());
+                                    }
+                                    walk(val, ids, nulls);
+                                }
+                            }
+                        }
+                        Value::Array(a) => a.iter().for_each(|e| walk(e, ids, nulls)),
+                        _ => {}
+                    }
+                }
+                let mut nulls = vec![];
+                walk(doc, &mut ids, &mut nulls);
+                let uniq: BTreeSet<&String> = ids.iter().collect();
+                cx.count("whole_document_uniqueness");
+                if uniq.len() != ids.len() {
+                    cx.violation("C06", "C06:object-appears-more-than-once-in-the-document", sc, hist, json!({"replica": r, "ids": ids, "read": doc}));
+                    return;
+                }
+                if !nulls.is_empty() {
+                    cx.violation("C06", "C06:nested-array-shown-as-null", sc, hist, json!({"replica": r, "read": doc}));
+                    return;
+                }
+            }
             let set: BTreeSet<String> = all_ids.iter().cloned().collect();
             cx.count("document_checks");
             if set.len() != all_ids.len() {
                 cx.violation("C06", "C06:element-appears-more-than-once", sc, hist, json!({"replica": r, "read": doc}));
                 return;
             }
-            if set != expected_all {
-                cx.violation("C06", "C06:live-element-of-some-version-missing", sc, hist, json!({"replica": r, "present": set, "expected": expected_all, "read": doc}));
+            // every live element of some version of a root-level array is shown somewhere in the document
+            // (in that array, or in exactly one other - possibly nested - array it was moved to)
+            let anywhere: BTreeSet<String> = {
+                let mut ids = vec![];
+                all_ids_of(doc, &mut ids);
+                ids.into_iter().collect()
+            };
+            if !expected_all.is_subset(&anywhere) || !set.is_subset(&expected_all) {
+                cx.violation("C06", "C06:live-element-of-some-version-missing", sc, hist, json!({"replica": r, "present_in_root_arrays": set, "present_anywhere": anywhere, "expected": expected_all, "read": doc}));
                 return;
             }
         }
@@ -265,6 +325,7 @@ pub fn scenarios(thorough: bool) -> Vec<Scenario> {
         &[Op::Resolve(1, 0, 0), Op::Resolve(1, 0, 1)]));
     v.push(pair_conflict_scenario("pair-conflict-move", 6, 5, if thorough { &[1, 3, 11] } else { &[1, 3] }, if thorough { 5 } else { 4 }, &[]));
     v.push(trio_scenario("trio", if thorough { 8 } else { 6 }));
+    v.push(mutual_move_scenario("pair-mutual-move", if thorough { 4 } else { 3 }, &[]));
     v.push(two_patch_scenario("pair-two-patches", if thorough { 4 } else { 3 }, &[]));
     // cold readers: a replica that receives several versions at once / is reopened
     v.push(pair_conflict_scenario("pair-conflict-cold", 5, 11, if thorough { &[1, 2, 3] } else { &[2, 3] }, if thorough { 5 } else { 4 }, &[Op::Reopen(0), Op::Reopen(1)]));
